@@ -435,6 +435,29 @@ def r4_routing(ctx, f, rep):
     rep.check(callers == ['Foca::apply_many', 'Foca::handle_data'], 'C01-R4', 'Foca::apply_update',
               'called from apply_many and handle_data only', construct='callers-apply_update',
               facts={'callers': callers})
+    # ... and apply_update itself decides nothing: every update it is given reaches Members::apply (the precedence
+    # table) - no fast path, filter or early return in front of it (the debug assertion on the own identity aside)
+    au = f.fn('Foca::apply_update')
+    n = 0
+    for p in ctx.paths(f, au, 'none'):
+        if p.end != 'return':
+            continue
+        n += 1
+        ai = [i for i, e in enumerate(p.events) if e['kind'] == 'call' and e['res'] == 'member::Members::apply']
+        good = len(ai) == 1
+        if good:
+            e = p.events[ai[0]]
+            upd = e['args'][1]
+            good = upd == ('load', ('local', 0, 2), 0) or upd == ('param', 0, 2) or q.pre_havoc(upd) == ('param', 0, 2)
+            for c in q.conds_before(p, ai[0]):
+                es = q.eq_sides(q.norm_bool(c)[0])
+                if not (es and any(q.is_self_field_load(x, 'identity') for x in es[1:])):
+                    good = False
+            good = good and not [x for x in p.events[:ai[0]] if x['kind'] == 'call' and not x['decl'].startswith('core::')
+                                 and x['res'] not in ('member::Member::id',)]
+        rep.check(good, 'C01-R4', au.nname, 'every update handed to apply_update reaches Members::apply, unconditionally and '
+                  'unchanged', construct='apply-update-unconditional')
+    rep.floor('C01-R4', n, 2, 'returning paths of apply_update')
 
 
 def r5_state_transfer(ctx, f, rep):
